@@ -46,16 +46,22 @@ def set_type(path, store_type, extra=b""):
     w.files[ctl + "/config"] = w.files[ctl + "/config"] + b"[xandikos]\n\ttype = " + store_type.encode() + b"\n" + extra
 
 
-def fresh_world(cal_state=None, ab_state=None, kind="tree"):
+def fresh_world(cal_state=None, ab_state=None, kind="tree", cfg="git"):
+    """cfg = which metadata back end carries the collection type: "git" ([xandikos] section of the
+    repository's git config) or "file" (the versioned .xandikos file)."""
     w = Wm.reset()
     Wb.open_store_from_path.cache_clear()
     for d in ("/srv", "/srv/other", ROOT, ROOT + "/user", ROOT + "/user/calendars", ROOT + "/user/contacts"):
         w.dirs.add(d)
     w.files["/srv/other/secret"] = b"s"
-    mstore.install_state(kind, ROOT + CAL, cal_state or {})
-    set_type(ROOT + CAL, "calendar")
-    mstore.install_state(kind, ROOT + AB, ab_state or {})
-    set_type(ROOT + AB, "addressbook")
+    if cfg == "git":
+        mstore.install_state(kind, ROOT + CAL, cal_state or {})
+        set_type(ROOT + CAL, "calendar")
+        mstore.install_state(kind, ROOT + AB, ab_state or {})
+        set_type(ROOT + AB, "addressbook")
+    else:
+        mstore.install_state(kind, ROOT + CAL, cal_state or {}, with_config=b"[DEFAULT]\ntype = calendar\n\n")
+        mstore.install_state(kind, ROOT + AB, ab_state or {}, with_config=b"[DEFAULT]\ntype = addressbook\n\n")
     return w
 
 
